@@ -62,6 +62,22 @@ CLAIMED = {
          "Exploration / non-detection: every unordered pair (incl. self-pairs) of the public-operation catalogue on shared backends (3 kinds x 3 strategies, janitor at 1ms, items reporter) and Failover/FailoverOf/Invalidator/HTTP export, plus seeded k-subsets, each op looped by two goroutines under -race with halt_on_error=0; any report with a library frame or a runtime concurrent-map fault is a violation.",
          "The race detector only sees executed accesses; claim is 'no report in the programs x repetitions executed'. A report without a library frame fails the check as broken.",
          "2/C16"),
+ "C08": ("porcupine linearizability checking of recorded client-boundary histories against a per-key nondeterministic register model, plus a walk monitor",
+         "Exploration: thousands of short concurrent histories (2..16 clients, 3..6 keys incl. a hash-colliding pair, four op-mix profiles, with/without LRU/LFU and with the real janitor evicting) are recorded with one atomic logical clock and checked per key; batch operations, evictions and collision-partner writes are inserted into each affected partition as (possibly nondeterministic) operations; Walk is checked for foreign entries and for exactly-once reporting of keys stable during the walk.",
+         "Model in c08_lin.go; batch ops act on each key at one instant within the call; checker timeout = inconclusive.",
+         "2/C08"),
+ "C09": ("collision-slot reference model over constructed xxhash64 collisions; buffer-overwrite-after-call monitor; gated background build scenario",
+         "Exploration: seeded op sequences over families of 2..4 constructed colliding 64-byte keys on all backends, through backends, Failover/FailoverOf, label index and Dump/Restore; after every key-taking call the passed buffer is overwritten and stored keys/labels/background-build targets are re-checked.",
+         "Collision construction is specific to xxhash64 seed 0 and verified at run time (Sum64 equality asserted).",
+         "2/C09"),
+ "C14": ("in-process RoundTripper driving the real Export handler and Import; differential content check; child processes for types-hash determinism and a two-process transfer",
+         "Exploration: seeded name subsets on both sides, all backend families, transport faults (tampered hash, truncated/failing body); types hash evaluated in fresh child processes over permutations/multisets of a 12-type pool; a separate exporter process with a different type set must be refused.",
+         "GobTypesHashReset (test helper) is out of scope; gob and net/http are trusted.",
+         "2/C14"),
+ "C18": ("harness StatsTracker ledger vs. ground truth from the harness' own operation/event log at quiescence (conservation / exactly-once)",
+         "Exploration: backend-only sequential and concurrent workloads (each goroutine owns its keys so removals are known exactly; ExpireAll/DeleteAll at barriers) and Failover/FailoverOf runs from the C01 generator (steered and free); every metric and the documented sums are compared per name label.",
+         "No evictions; no backend fault injection in these workloads (cache_refreshed counts attempts).",
+         "2/C18"),
 }
 
 NOT_YET = "check not built yet in this round (planned, see DESIGN.md section 2)"
